@@ -3,9 +3,13 @@
 package checks
 
 import (
+	"bufio"
 	"encoding/json"
 	"fmt"
 	"net/http"
+	"os"
+	"os/exec"
+	"path/filepath"
 	"sort"
 	"strings"
 	"time"
@@ -291,10 +295,183 @@ func runFaults(c c19Case, base map[string]uint64) (obs, bad string) {
 	return obs, ""
 }
 
+type c19ChildFail struct {
+	Scenario, Sig, Want, Got string
+	Case                     c19Case
+}
+
+type c19ChildResult struct {
+	N, States, Trans int64
+	Core             int
+	Statuses         map[int]int
+	Distinct         []uint64
+	Fails            []c19ChildFail
+}
+
+func faultNames(fs []fault) []string {
+	var out []string
+	for _, f := range fs {
+		out = append(out, f.Name)
+	}
+	return out
+}
+
+// c19InProc is the in-process exploration (child side): it leaves a marker naming the sequence in
+// flight before each one, and prints its result at the end.
+func c19InProc(r *ev.Run, fl []fault, base map[string]uint64) {
+	marker := os.Getenv("VERIF_MARKER")
+	out := c19ChildResult{Statuses: map[int]int{}}
+	states := map[string]bool{}
+	dist := map[uint64]bool{}
+	run := func(c c19Case, idx string) {
+		if marker != "" {
+			os.WriteFile(marker, []byte(idx), 0o644)
+		}
+		obs, bad := runFaults(c, base)
+		out.N++
+		out.Trans += int64(2 * len(c.Faults))
+		states[irt.Digest(true)] = true
+		if bad != "" && len(out.Fails) < 30 {
+			out.Fails = append(out.Fails, c19ChildFail{"fault-sequence", bad, "complete response, consistent status, probes exact, bounded work", obs + " " + bad, c})
+		}
+		var st int
+		fmt.Sscanf(obs, "[%d|", &st)
+		out.Statuses[st]++
+		dist[ev.H(obs)] = true
+	}
+	if one := os.Getenv("VERIF_ONE"); one != "" {
+		// replay of a single sequence given by indices
+		c, ok := c19CaseOf(fl, one)
+		if ok {
+			run(c, one)
+		}
+	} else {
+		np := len(probes())
+		for i, f := range fl {
+			for pi := 0; pi < np; pi++ {
+				if len(f.Req.body()) > 100000 && pi%5 != i%5 {
+					continue // the few huge bodies meet a rotating fifth of the probes
+				}
+				run(c19Case{[]fault{f}, []int{pi}, (i+pi)%2 == 0}, fmt.Sprintf("1 %d %d %v", i, pi, (i+pi)%2 == 0))
+			}
+			if len(out.Fails) >= 30 {
+				break
+			}
+		}
+		var core []int
+		if r.Thorough() {
+			for i := range fl {
+				core = append(core, i)
+			}
+		} else {
+			step := len(fl) / 60
+			for i := 0; i < len(fl); i += step {
+				core = append(core, i)
+			}
+		}
+		out.Core = len(core)
+		for _, i := range core {
+			for _, j := range core {
+				a, b := fl[i], fl[j]
+				if r.Thorough() && len(a.Req.body()) > 100000 && len(b.Req.body()) > 100000 {
+					continue
+				}
+				run(c19Case{[]fault{a, b}, []int{i + j, i + 2*j + 1}, true}, fmt.Sprintf("2 %d %d %d %d", i, j, i+j, i+2*j+1))
+			}
+			if len(out.Fails) >= 30 {
+				break
+			}
+		}
+	}
+	out.States = int64(len(states))
+	for h := range dist {
+		out.Distinct = append(out.Distinct, h)
+	}
+	b, _ := json.Marshal(out)
+	fmt.Println("SHARD-RESULT " + string(b))
+	os.Exit(0)
+}
+
+// c19CaseOf rebuilds a sequence from its marker.
+func c19CaseOf(fl []fault, idx string) (c19Case, bool) {
+	var kind, i, j, p1, p2 int
+	var reuse bool
+	if n, _ := fmt.Sscanf(idx, "1 %d %d %v", &i, &p1, &reuse); n == 3 && i < len(fl) {
+		return c19Case{[]fault{fl[i]}, []int{p1}, reuse}, true
+	}
+	if n, _ := fmt.Sscanf(idx, "%d %d %d %d %d", &kind, &i, &j, &p1, &p2); n == 5 && kind == 2 && i < len(fl) && j < len(fl) {
+		return c19Case{[]fault{fl[i], fl[j]}, []int{p1, p2}, true}, true
+	}
+	return c19Case{}, false
+}
+
+// c19RunChild runs the in-process exploration in a child process and returns its result; if the
+// child died, it also returns the sequence that was in flight.
+func c19RunChild(r *ev.Run) (res c19ChildResult, crashed *c19Case, note string) {
+	return c19Spawn("")
+}
+
+func c19Spawn(one string) (res c19ChildResult, crashed *c19Case, note string) {
+	res.Statuses = map[int]int{}
+	self, _ := os.Executable()
+	marker := filepath.Join(os.Getenv("VERIF_WORK"), fmt.Sprintf("c19marker.%d", os.Getpid()))
+	if os.Getenv("VERIF_WORK") == "" {
+		marker = filepath.Join(os.TempDir(), fmt.Sprintf("c19marker.%d", os.Getpid()))
+	}
+	defer os.Remove(marker)
+	cmd := exec.Command(self, "C19")
+	cmd.Env = append(os.Environ(), "VERIF_CHILD=inproc", "VERIF_MARKER="+marker, "VERIF_ONE="+one)
+	var errb strings.Builder
+	cmd.Stderr = &errb
+	outp, err := cmd.Output()
+	got := false
+	sc := bufio.NewScanner(strings.NewReader(string(outp)))
+	sc.Buffer(make([]byte, 1<<20), 1<<28)
+	for sc.Scan() {
+		if l := sc.Text(); strings.HasPrefix(l, "SHARD-RESULT ") {
+			got = json.Unmarshal([]byte(l[13:]), &res) == nil
+		}
+	}
+	if got {
+		return res, nil, ""
+	}
+	// the child died: which sequence was in flight?
+	mb, _ := os.ReadFile(marker)
+	c, ok := c19CaseOf(faultList(), string(mb))
+	note = fmt.Sprintf("child exited abnormally (%v): %s", err, lastLines(errb.String(), 6))
+	if !ok {
+		return res, &c19Case{}, note
+	}
+	return res, &c, note
+}
+
 func c19(r *ev.Run) {
 	restInit()
 	base := nonPool(irt.Globals())
 	r.Scenario("fault-sequence", func(raw []byte) (string, string) { return runFaults(unjson[c19Case](raw), base) })
+	r.Scenario("service-crash", func(raw []byte) (string, string) {
+		c := unjson[c19Case](raw)
+		// find the sequence among the fault classes by name and run it alone in a child
+		fl := faultList()
+		idx := map[string]int{}
+		for i, f := range fl {
+			idx[f.Name] = i
+		}
+		var one string
+		switch len(c.Faults) {
+		case 1:
+			one = fmt.Sprintf("1 %d %d %v", idx[c.Faults[0].Name], c.Probes[0], c.Reuse)
+		case 2:
+			one = fmt.Sprintf("2 %d %d %d %d", idx[c.Faults[0].Name], idx[c.Faults[1].Name], c.Probes[0], c.Probes[1])
+		default:
+			return "", ""
+		}
+		_, crashed, note := c19Spawn(one)
+		if crashed != nil {
+			return "process died", "the process serving the request died: " + firstLine(note)
+		}
+		return "survived", ""
+	})
 	r.Scenario("live-server", func(raw []byte) (string, string) {
 		c := unjson[c19Case](raw)
 		if len(c.Faults) == 0 {
@@ -317,62 +494,29 @@ func c19(r *ev.Run) {
 	}
 	fl := faultList()
 	r.Set("fault_classes", len(fl))
-	var n, trans int64
-	states := map[string]bool{}
-	statuses := map[int]int{}
-	run := func(c c19Case) {
-		obs, bad := runFaults(c, base)
-		n++
-		trans += int64(2 * len(c.Faults))
-		states[irt.Digest(true)] = true
-		if bad != "" {
-			small := c
-			r.Fail("fault-sequence", bad, small, "complete response, consistent status, probes exact, bounded work", obs+" "+bad)
-		}
-		var st int
-		fmt.Sscanf(obs, "[%d|", &st)
-		statuses[st]++
-		r.DistinctS(obs)
+	// The in-process exploration runs in a CHILD process: a request that kills the process
+	// (fatal runtime error such as a stack overflow - not a panic, so no middleware can catch it)
+	// must not take the check down with it; the parent reports it as a violation.
+	if os.Getenv("VERIF_CHILD") == "inproc" {
+		c19InProc(r, fl, base)
+		return
 	}
-	// depth 1: every fault, every probe position, fresh and reused ctx
-	np := len(probes())
-	for i, f := range fl {
-		for pi := 0; pi < np; pi++ {
-			if len(f.Req.body()) > 100000 && pi%5 != i%5 {
-				continue // the few huge bodies meet a rotating fifth of the probes
-			}
-			run(c19Case{[]fault{f}, []int{pi}, (i+pi)%2 == 0})
-		}
-		if r.Violations() > 30 {
-			break
-		}
+	res, crashed, crashNote := c19RunChild(r)
+	for _, f := range res.Fails {
+		r.Fail(f.Scenario, f.Sig, f.Case, f.Want, f.Got)
 	}
-	// depth 2
-	core := fl
-	if !r.Thorough() {
-		core = nil
-		step := len(fl) / 60
-		for i := 0; i < len(fl); i += step {
-			core = append(core, fl[i])
-		}
+	r.Eval(res.N)
+	r.State(res.States)
+	r.Transition(res.Trans)
+	r.Trace(res.Trans)
+	for _, h := range res.Distinct {
+		r.Distinct(h)
 	}
-	for i, a := range core {
-		for j, b := range core {
-			if r.Thorough() && len(a.Req.body()) > 100000 && len(b.Req.body()) > 100000 {
-				continue
-			}
-			run(c19Case{[]fault{a, b}, []int{i + j, i + 2*j + 1}, true})
-		}
-		if r.Violations() > 30 {
-			break
-		}
+	r.Set("depth2_core_classes", res.Core)
+	r.Set("first_fault_status_histogram", res.Statuses)
+	if crashed != nil {
+		r.Fail("service-crash", "the process serving the requests died while handling: "+strings.Join(faultNames(crashed.Faults), " ; ")+" — "+firstLine(crashNote), *crashed, "a complete response and a live process", crashNote)
 	}
-	r.Eval(n)
-	r.State(int64(len(states)))
-	r.Transition(trans)
-	r.Trace(trans)
-	r.Set("depth2_core_classes", len(core))
-	r.Set("first_fault_status_histogram", statuses)
 	// the fault list against the real binary
 	srv, err := startServer()
 	if r.Violations() > 0 {
